@@ -89,6 +89,8 @@ def absent_contigs(case):
             for r in s[1]:
                 if r[0] == "F":
                     out.append((s[0], r))
+    # contigs inside the core of a piece that was left out of the map (its sister pieces are in it)
+    out += [(sn, r) for sn, r in (case.get("design") or {}).get("absent_rows", [])]
     return out
 
 
@@ -99,8 +101,8 @@ def oracle(case, outcome, ctx):
     desc = f"t={case['t']} target_mode={design.get('target_mode')} haps={design.get('haps')} primary={design.get('primary')}\ninput={case['input']}\npretext={case['pretext']}"
     if not outcome["ok"]:
         e = outcome["exc"]
-        if "tag:haplotig-slivers" in case["labels"]:
-            ctx.count(f"sliver-map-error:{e['type']}@{e['fn']}")  # hostile extras: an error is an allowed outcome
+        if "tag:haplotig-slivers" in case["labels"] or case["gen"] == "tagdrop":
+            ctx.count(f"sliver-or-dropped-piece-map-error:{e['type']}@{e['fn']}")  # hostile extras: an error is an allowed outcome
             return
         ctx.violation(f"designed-tagging-raised-{e['type']}@{e['fn']}", f"{e['msg'][:500]}\n{desc}", stripped)
         return
@@ -233,7 +235,7 @@ def replay(case, ctx):
 
 def plan(tier, seed):
     n, per = (12, 2000) if tier == "quick" else (15, 25000)
-    sh = [{"kind": "mem", "kinds": [["tag"], ["tag", "tag2"]][k % 2], "n": per} for k in range(n)]
+    sh = [{"kind": "mem", "kinds": [["tag"], ["tag", "tag2"], ["tag", "tagdrop"], ["tag", "tag2"]][k % 4], "n": per} for k in range(n)]
     nc, perc = (4, 60) if tier == "quick" else (16, 100)
     return sh + [{"kind": "cli", "n": perc} for _ in range(nc)]
 
@@ -250,6 +252,7 @@ def gates(c, tier):
         "routed:contaminant-by-target-rule": 100,
         "routed:unloc:painted:later": 100,
         "absent:target-mode": 20,
+        "label:tag:piece-dropped-from-map": 300,
         "absent:haplotype-by-name": 20,
         "absent:unprefixed-in-haplotype-map": 10,
         "label:tag:unprefixed-scaffold-in-haplotype-map": 100,
